@@ -2,6 +2,7 @@ package harness
 
 import (
 	"encoding/json"
+	"hash/fnv"
 	"flag"
 	"fmt"
 	"os"
@@ -262,7 +263,15 @@ func search(t *testing.T, p Property) {
 				}
 				if out.Reached {
 					res.NonTrivial++
-					hashes[out.SwHash] = struct{}{}
+					h := out.SwHash
+					if out.ScnDistinct {
+						if b, err := json.Marshal(scn); err == nil {
+							f := fnv.New64a()
+							f.Write(b)
+							h ^= f.Sum64()
+						}
+					}
+					hashes[h] = struct{}{}
 				}
 				if len(res.Samples) < 3 && out.Reached {
 					if b, err := json.Marshal(map[string]any{"scenario": scn, "tape_len": len(tape), "steps": out.Steps, "preemptions": out.Preempts, "switches": out.Switches}); err == nil {
